@@ -13,6 +13,8 @@ import time
 
 VERIF = os.path.dirname(os.path.dirname(os.path.abspath(__file__)))
 sys.path.insert(0, VERIF)
+# where evidence/, work/ go (seed evaluation runs several checks at once)
+OUT = os.environ.get('VERIF_OUT') or VERIF
 from vlib import bootstrap  # noqa: E402
 
 EXIT_OK, EXIT_VIOLATION, EXIT_HARNESS = 0, 1, 3
@@ -154,7 +156,7 @@ def load_known(prop):
 
 
 def write_replay_file(prop, job, info):
-    d = os.path.join(VERIF, 'evidence', 'replays')
+    d = os.path.join(OUT, 'evidence', 'replays')
     os.makedirs(d, exist_ok=True)
     n = 0
     while True:
@@ -184,7 +186,7 @@ def validate_evidence(path):
 
 def write_evidence(prop, tier, level, coverage, assumptions, wall, violations,
                    extra=None):
-    os.makedirs(os.path.join(VERIF, 'evidence'), exist_ok=True)
+    os.makedirs(os.path.join(OUT, 'evidence'), exist_ok=True)
     ev = {'property_id': prop, 'tier': tier,
           'seed': int(os.environ.get('VERIF_SEED', '0') or 0),
           'level': level, 'coverage': coverage,
@@ -192,7 +194,7 @@ def write_evidence(prop, tier, level, coverage, assumptions, wall, violations,
           'violations': violations}
     if extra:
         ev.update(extra)
-    path = os.path.join(VERIF, 'evidence', prop + '.json')
+    path = os.path.join(OUT, 'evidence', prop + '.json')
     tmp = path + '.tmp'
     json.dump(ev, open(tmp, 'w'), indent=1, default=str)
     os.replace(tmp, path)
@@ -226,7 +228,7 @@ def run_e1_property(prop, tier, harness_module, log=print):
     bootstrap.ensure()
     # import lazily in a subprocess-free way: only metadata is read here
     meta = harness_meta(harness_module)
-    workdir = os.path.join(VERIF, 'work', prop)
+    workdir = os.path.join(OUT, 'work', prop)
     shutil.rmtree(workdir, ignore_errors=True)
     os.makedirs(workdir, exist_ok=True)
 
